@@ -125,6 +125,14 @@ var (
 		Text: "PRINT.1 BinaryExpr/UnaryExpr/CondExpr print as ( … ) with operands in order and operators spelled by Token.String(); PRINT.2 every Expr/Stmt printer mentions each of its child fields"}
 	rSEMI1 = &Rule{Name: "SEMI.1", Floor: 4, Fn: ruleSEMI1,
 		Text: "the scanner inserts a semicolon at a newline exactly after: identifier, break, continue, return, export, true, false, undefined, number/string/char literals, ) ] }, ++ and -- (Go's rule applied to Tengo's token set)"}
+	rDEDUP1 = &Rule{Name: "DEDUP.1", Floor: 12, Fn: ruleDEDUP1,
+		Text: "every arm of RemoveDuplicates records an old→new index on every path, takes the new index as len(pool) before appending the constant, and covers every type the compiler adds to the pool; afterwards the pool is replaced and one index map rewrites the main function and every compiled function of the new pool"}
+	rGOB = &Rule{Name: "GOB", Floor: 25, Fn: ruleGOB,
+		Text: "GOB.1 every type that can occur in encoded bytecode is registered with gob; GOB.2 registered structs have only exported fields (tabled caches) or inverse GobEncode/GobDecode; GOB.3 Encode/Decode stream the same fields in the same order, every decoded constant passes fixDecodedObject, which restores the singletons and recurses into containers"}
+	rXCH = &Rule{Name: "XCH", Floor: 35, Fn: ruleXCH,
+		Text: "XCH.1 for every Object type ToInterface yields a Go type that FromInterface turns back into the same Object type (immutable→mutable tabled), containers recurse, documented Go input kinds arrive as documented; XCH.2 each typed accessor of Variable returns the first result of the To* function of its return type; XCH.3 Set looks the name up and rejects unknown names before storing, Get/GetAll read nil slots as undefined, host variables are defined before the script is compiled"}
+	rCLONE1 = &Rule{Name: "CLONE.1", Floor: 5, Fn: ruleCLONE1,
+		Text: "Clone makes a fresh globals slice filled with g.Copy() and marks the clone as sharing bytecode; ReplaceBuiltinModule copies bytecode and indexes (copy-on-write) before writing; Bytecode.Clone copies the constant slice"}
 )
 
 func allProperties() []*Property {
@@ -160,7 +168,7 @@ func allProperties() []*Property {
 		{ID: "C08",
 			Decided:    "lock discipline of *Compiled; Copy is deep and fresh (what makes per-clone globals independent).",
 			NotDecided: "absence of data races over all interleavings; equality with the sequential baseline.",
-			Rules:      []*Rule{rLOCK, rCOPY1}},
+			Rules:      []*Rule{rLOCK, rCOPY1, rCLONE1}},
 		{ID: "C09",
 			Decided:    "no route from the storage of an immutable array/map to a write or to a mutable owner, in any function of any package (ownership rule on two fields).",
 			NotDecided: "immutability broken by embedder code or unsafe/reflect (neither occurs in the tree).",
@@ -170,9 +178,9 @@ func allProperties() []*Property {
 			NotDecided: "arithmetic results; NaN/±0 laws as numeric facts.",
 			Rules:      []*Rule{rCMP1, rCMP2, rCMP3, rCONV1, rFALSY1, rCOPY1, rTWIN1}},
 		{ID: "C15",
-			Decided:    "lock discipline of the accessor methods.",
-			NotDecided: "the history clause over all call sequences.",
-			Rules:      []*Rule{rLOCK}},
+			Decided:    "type-level round trip of FromInterface/ToInterface; typed accessors call the documented conversion; Set/Get/GetAll guards; lock discipline; conversion table agreement.",
+			NotDecided: "the history clause (a variable reads as the last value set) over all call sequences.",
+			Rules:      []*Rule{rXCH, rLOCK, rCONV1, rCLONE1}},
 		{ID: "C11",
 			Decided:    "the three variable families' selector-assignment arms are clones; operand decoding of all Local/Free/Global opcodes agrees with the encoder.",
 			NotDecided: "the metamorphic relation itself (needs executing transformed programs).",
@@ -208,6 +216,6 @@ func allProperties() []*Property {
 		{ID: "C12",
 			Decided:    "constant re-indexing covers exactly the opcodes through which the VM reads the constant pool, with the operand layout of the tables.",
 			NotDecided: "behavioural equality after de-duplication / gob round trip.",
-			Rules:      []*Rule{rCODEC5}},
+			Rules:      []*Rule{rCODEC5, rDEDUP1, rGOB}},
 	}
 }
